@@ -113,6 +113,16 @@ func ioGenome(g *G, modules bool, allowInf bool) (*genetics.Genome, string) {
 	}
 	gn := cloneGenome(src)
 	gn.Id = g.intn(1000)
+	if fam == "modular:hand" {
+		// the encodings carry module wires as endpoint lists only: every genome reachable from a file or by the operators
+		// has plain wires of weight 1.0 (stated as theorem C15.yaml_module_links_read_as_one); hand-built wires are
+		// brought to that form here - the hand-built part that matters for IO is the node numbering and the wiring
+		for _, cg := range gn.ControlGenes {
+			for _, l := range append(append([]*network.Link{}, cg.ControlNode.Incoming...), cg.ControlNode.Outgoing...) {
+				l.ConnectionWeight, l.IsRecurrent, l.Trait = 1.0, false, nil
+			}
+		}
+	}
 	if fam == "modular" && g.chance(0.7) {
 		// descendants of the modular genome by the real operators (module links stay as read: weight 1.0)
 		opts := randOpts(g)
